@@ -66,6 +66,12 @@ CHECKS = {
         technique="Coq proof (field identities, induction over layers, shooting uniqueness; Coquelicot MVT chain for the remainder) + slice translator/bridge + float correspondence; convergence-order oracle",
         design="6/C05",
     ),
+    "C11": dict(
+        text="Machine-checked Coq theorems: every call of Model/Solver.v returns an error or fields with one slice per level of exactly the source's (ny, nx) shape with x=i*dx, y=j*dy (all parities, halos, mode counts); only odd mode requests are rejected; the code's fftshift/slice/pad index arithmetic (as repaired) reads and writes retained index t at padded index fftfreq(L)[t] mod n and zero elsewhere, without collisions, for every parity of n and L; a component retained under two mode counts has identical amplitude, shift and frequency (low-pass); a request exceeding the padded size retains exactly the padded size and equals that request. Tie: exhaustive (thorough) / sampled (quick) correspondence of outcome class, shape, coordinates and values over nx in 2..9, even/odd/oversized mode requests, halos {0, None, incommensurate}, both modes.",
+        note="numpy's fftshift/ifftshift/pad/slice are modelled as functions of an integer index (Proofs/Plumbing.v) - modelling assumption validated by the correspondence on every parity class; exact arithmetic. Closed under the global context.",
+        technique="Coq proof (integer index arithmetic with lia, structural facts of the model) + exhaustive small-grid model/implementation correspondence + slice translator/bridge",
+        design="6/C11",
+    ),
 }
 
 NOT_YET = "check not built yet in this round of work (planned in DESIGN.md section 6); no claim is made"
